@@ -441,8 +441,10 @@ func (s *Server) Restore(snapshot io.ReadCloser) error {
 		return err
 	}
 
-	// Drop state and restore.
-	if err := s.metadata.Reset(); err != nil {
+	// Drop state and restore. Streams which are not in the snapshot are
+	// deleted, as they would have been had this server applied the operations
+	// the snapshot covers itself.
+	if err := s.metadata.ResetForRestore(snap.Streams); err != nil {
 		return err
 	}
 	// Mark streams and groups as recovered so they don't start leader/follower
